@@ -17,6 +17,7 @@ EXPLANATION = (
     "whose two operands both have a runtime shape either compare the shapes and return Err or use a shape-asserting nalgebra kernel. Kind coherence "
     "(pattern variant <-> element type) is enforced by rustc's type inference on the generated arms and is not re-checked. The scalar semantics of OP itself (Rust's operator on the primitive type) is trusted. "
     "Not decided: overflow/rounding behaviour of the Rust operators."
+    ' (R4, strengthened) the shape guard of every same-form arm is DECIDED over the finite table of operand shapes {1,2,3}^2 x {1,2,3}^2 admitted by the storage forms: it must fire for every unequal pair and for no equal pair; (R7) the per-variant arms of Value::kind/shape/is_matrix/is_scalar keep their frozen sibling partition (deviant-sibling check).'
 )
 
 # oracle: operator enum variant -> operator the kernel must apply (from the property statement / spec 6.1.3)
